@@ -24,7 +24,14 @@ import (
 	"time"
 )
 
-const VerifDir = "/verif"
+// VerifDir is where evidence/, replays/, work/ and known_findings.json live
+// (overridable with VERIF_DIR for development copies).
+var VerifDir = func() string {
+	if d := os.Getenv("VERIF_DIR"); d != "" {
+		return d
+	}
+	return "/verif"
+}()
 
 // Spec describes one property check.
 type Spec struct {
